@@ -52,11 +52,12 @@ pub fn small_basic(_data_cells: usize) -> Basic {
 /// Scenario: k0 registers, frame x, k1 registers, frame y, k2 registers; then pop_frame twice.
 /// k0, k1, k2 in 0..=1 symbolic: includes "a call made from inside a call while the operand stack is empty".
 pub fn basic_frames<N: Nondet, const K: u8>(n: &mut N) {
+    const FRAME_HEAP: usize = 12;
     // the number of pushes is concrete per harness (a symbolic block cursor makes every push a possible
     // reallocation: DESIGN.md probe 12); K enumerates the 8 shapes
     let (k0, k1, k2) = (K & 1 != 0, K & 2 != 0, K & 4 != 0);
     let (x, y) = (n.usize_below(1000), n.usize_below(1000));
-    let mut d = small_basic(24);
+    let mut d = small_basic(FRAME_HEAP);
     let u = d.add_unit().unwrap();
     let v = d.add_true().unwrap();
     if k0 {
